@@ -16,7 +16,7 @@ EXTENDS CmdGeneric, CmdString, CmdHash, CmdList, CmdSet, CmdZSet, Mem
 
 Modelled == {"SET", "MSET", "GET", "MGET", "DEL", "PERSIST", "EXPIRETIME", "PEXPIRETIME", "TTL", "PTTL",
              "EXPIRE", "PEXPIRE", "EXPIREAT", "PEXPIREAT", "INCR", "DECR", "INCRBY", "DECRBY",
-             "INCRBYFLOAT", "RENAME", "FLUSHDB", "FLUSHALL", "SWAPDB", "GETDEL", "GETEX", "TYPE",
+             "INCRBYFLOAT", "RENAME", "FLUSHDB", "FLUSHALL", "SWAPDB", "RANDOMKEY", "TOUCH", "GETDEL", "GETEX", "TYPE",
              "APPEND", "SETRANGE", "STRLEN", "GETRANGE", "SUBSTR"}
 
 \* a command naming a key whose current value is outside the model is not judged
@@ -49,6 +49,8 @@ Exec(C, a, g) ==
       [] op = "FLUSHDB"     -> XFlush(C, a, FALSE)
       [] op = "FLUSHALL"    -> XFlush(C, a, TRUE)
       [] op = "SWAPDB"      -> XSwapDb(C, a)
+      [] op = "RANDOMKEY"   -> XRandomKey(C, a, g)
+      [] op = "TOUCH"       -> XTouch(C, a)
       [] op = "GETDEL"      -> XGetDel(C, a)
       [] op = "GETEX"       -> XGetEx(C, a)
       [] op = "TYPE"        -> XType(C, a)
